@@ -1,5 +1,5 @@
 #!/usr/bin/env python3
-"""Round 2: collects the confirmed seeded changes of /tmp/seed2/<prop>/_OUT/<n> into /verif/seeded/<prop>-r2-<n>/ and
+"""Round 3: collects the confirmed seeded changes of /tmp/seed3/<prop>/_OUT/<n> into /verif/seeded/<prop>-r2-<n>/ and
 rebuilds seeded/INDEX.md from all meta.json files (both rounds).
 Logs: /tmp/seedlogs2 = first pass (checks as they were before the round-2 strengthening), /tmp/seedlogs3 = final pass."""
 import json, os, re, shutil, glob
@@ -14,15 +14,15 @@ def parse(log):
         checks[cm.group(1)]={'exit':int(cm.group(2)),'violation_lines':int(cm.group(3)),'first':cm.group(4)[:300]}
     return tuple(map(int,sm.groups())), checks
 n_new=0
-for src in sorted(glob.glob('/tmp/seed2/C*/_OUT/[0-9]*')):
-    m=re.match(r'/tmp/seed2/(C\d+)/_OUT/(\d+)$', src)
+for src in sorted(glob.glob('/tmp/seed3/C*/_OUT/[0-9]*')):
+    m=re.match(r'/tmp/seed3/(C\d+)/_OUT/(\d+)$', src)
     if not m or not os.path.exists(src+'/patch.diff'): continue
     prop,n=m.group(1),m.group(2)
-    first=parse(f'/tmp/seedlogs2/{prop}-{n}.log')
-    final=parse(f'/tmp/seedlogs3/{prop}-{n}.log')
+    first=parse(f'/tmp/seedlogs4/{prop}-{n}.log')
+    final=parse(f'/tmp/seedlogs5/{prop}-{n}.log')
     if not first: continue
     (clean,suite,demo),checks1=first
-    dst=f'{root}/{prop}-r2-{n}'
+    dst=f'{root}/{prop}-r3-{n}'
     if os.path.exists(dst): shutil.rmtree(dst)
     os.makedirs(dst)
     shutil.copy(src+'/patch.diff', dst+'/patch.diff')
@@ -31,7 +31,7 @@ for src in sorted(glob.glob('/tmp/seed2/C*/_OUT/[0-9]*')):
     try: am=json.load(open(src+'/meta.json'))
     except Exception as e: am={'note':'agent meta unreadable: %s'%e}
     det=lambda ch:[c for c,v in ch.items() if v['exit']==1 and v['violation_lines']>0]
-    meta={'property':prop,'round':2,'breaks':am.get('breaks'),'needs':am.get('needs'),'files':am.get('files'),
+    meta={'property':prop,'round':3,'breaks':am.get('breaks'),'needs':am.get('needs'),'files':am.get('files'),
           'agent_how_verified':am.get('how_verified'),
           'confirmed_by_me':{'demo_passes_on_clean_tree':clean==0,'suite_passes_with_change':suite==0,'demo_fails_with_change':demo!=0,
                              'how':'seedtest: fresh scratch worktree of /repo HEAD, private TMPDIR; demo on clean tree, git apply patch, go build ./..., go test -count=1 ./..., demo again; then the patch is applied to a second scratch checkout that the checks are built against (VERIF_REPO), ./run.sh <check> quick, checkout undone'},
@@ -55,4 +55,4 @@ with open(root+'/INDEX.md','w') as f:
         missed='' if not fp else ('yes' if not fp['detected_by'] else 'no')
         if not fp: missed = 'see NOTES.md'
         f.write(f"| {sid} | {(meta.get('breaks') or '')[:160]} / needs: {(meta.get('needs') or '')[:200]} | {'yes' if conf else 'NO'} | {det} | {missed} |\n")
-print(n_new,'round-2 seeds collected; total',len(rows),'undetected:',[s for s,m in rows if not m.get('detected_by')])
+print(n_new,'round-3 seeds collected; total',len(rows),'undetected:',[s for s,m in rows if not m.get('detected_by')])
